@@ -823,6 +823,11 @@ def _write_tree(request):
             handle.write(_unb64(spec["b64"]))
         if spec.get("mode") is not None:
             os.chmod(full, spec["mode"])
+    for rel, source in (request.get("links") or {}).items():
+        # a second name (hard link) for a user file
+        full = os.path.join(S.work, rel)
+        os.makedirs(os.path.dirname(full), exist_ok=True)
+        os.link(os.path.join(S.work, source), full)
     for rel, spec in (request.get("tmpfiles") or {}).items():
         full = os.path.join(S.tmp, rel)
         with open(full, "wb") as handle:
@@ -837,7 +842,7 @@ def _child(request, root):
     S.cwd_at_event = os.getcwd
     os.makedirs(S.work)
     os.makedirs(S.tmp)
-    S.user_files = set((request.get("files") or {}).keys())
+    S.user_files = set((request.get("files") or {}).keys()) | set((request.get("links") or {}).keys())
     S.user_dirs = set(request.get("dirs") or [])
     for rel in list(S.user_files):
         parts = rel.split("/")[:-1]
